@@ -356,7 +356,12 @@ def c03_case(ctx, book, case_seed):
                           f'{book}: writes {later} raised {o[1]} on the '
                           f'{"loaded" if model is loaded else "original"} model', case)
             return
+    # (OFFSET / INDIRECT may now point at cells that were never part of the saved model: the original reads them
+    #  from the workbook, a loaded model has no workbook - the documented limit of a saved model)
+    dynamic = _computed_reference_cells(book)
     for a in targets:
+        if a in dynamic:
+            continue
         x, y = wb.outcome(comp.evaluate, a), wb.outcome(loaded.evaluate, a)
         ctx.count('real_value_compares')
         if not wb.same_outcome(x, y):
@@ -378,6 +383,11 @@ def c08_case(ctx, book, case_seed):
     case = {'kind': 'real-book', 'book': book, 'case_seed': case_seed}
     # inputs: numeric cells that something depends on (found on a scout model); outputs: their dependants and others
     scout = compile_primed(ctx, book)
+    # (cells computed through OFFSET / INDIRECT can reach cells outside of the trimmed or saved model)
+    dynamic = _computed_reference_cells(book)
+    formulas = [a for a in formulas if a not in dynamic]
+    if not formulas:
+        return
     some = rng.sample(formulas, min(len(formulas), 80))
     for a in some:
         wb.outcome(scout.evaluate, a)
